@@ -516,7 +516,7 @@ func genConfig(r rng, seed uint64, id string, merge bool) *sdl.Program {
 			if merge {
 				// precedence family: fields never make the start fail
 				cf.Optional, cf.Validate = true, ""
-				if cf.Menu == "sum" || cf.Menu == "mul" || cf.Menu == "nested" || cf.Menu == "indirect" || cf.Menu == "prefixStructV" || cf.Menu == "sumDef2" || cf.Menu == "cmp" || cf.Menu == "tern" || cf.Menu == "concat" || cf.Menu == "affine" || cf.Menu == "and" || cf.Menu == "mod" || cf.Menu == "div" {
+				if cf.Menu == "sum" || cf.Menu == "mul" || cf.Menu == "nested" || cf.Menu == "indirect" || cf.Menu == "prefixStructV" || cf.Menu == "sumDef2" || cf.Menu == "cmp" || cf.Menu == "tern" || cf.Menu == "concat" || cf.Menu == "affine" || cf.Menu == "and" || cf.Menu == "mod" || cf.Menu == "div" || cf.Menu == "concatPad" {
 					cf.Menu, cf.Keys, cf.GoType = "prefixStruct", []string{"sim.sub"}, "struct"
 				}
 			}
@@ -621,6 +621,10 @@ func genConf(r rng, field string) *sdl.Conf {
 	case 14:
 		// string concatenation inside an expression
 		c.Menu, c.Keys, c.GoType = "concat", []string{pick(r, cfgLeafStrs), pick(r, cfgLeafStrs)}, "string"
+		if r.p(0.4) {
+			// ... whose result ends in blanks (they are part of the value)
+			c.Menu, c.Keys = "concatPad", c.Keys[:1]
+		}
 	case 11:
 		// two placeholders, each with its own default; one of the keys is usually absent
 		ks := []string{pick(r, []string{"gone.a", "gone.b", pick(r, cfgLeafInts[:3])}), pick(r, cfgLeafInts[:3])}
@@ -726,7 +730,7 @@ func GenerateTwins(seed uint64, idFlat, idEmb string) (*sdl.Program, *sdl.Progra
 		for fi := 0; fi < r.n(0, 2); fi++ {
 			cf := genConf(r, fmt.Sprintf("C%d", fi))
 			cf.Optional, cf.Validate, cf.Embed = true, "", nil
-			if cf.Menu == "sum" || cf.Menu == "mul" || cf.Menu == "nested" || cf.Menu == "indirect" || cf.Menu == "prefixStructV" || cf.Menu == "sumDef2" || cf.Menu == "cmp" || cf.Menu == "tern" || cf.Menu == "concat" || cf.Menu == "affine" || cf.Menu == "and" || cf.Menu == "mod" || cf.Menu == "div" {
+			if cf.Menu == "sum" || cf.Menu == "mul" || cf.Menu == "nested" || cf.Menu == "indirect" || cf.Menu == "prefixStructV" || cf.Menu == "sumDef2" || cf.Menu == "cmp" || cf.Menu == "tern" || cf.Menu == "concat" || cf.Menu == "affine" || cf.Menu == "and" || cf.Menu == "mod" || cf.Menu == "div" || cf.Menu == "concatPad" {
 				cf.Menu, cf.Keys, cf.Default, cf.GoType = "valueDef", []string{pick(r, cfgLeafInts)}, "1", "int"
 			}
 			if len(p.Scanners) != 0 && r.p(0.35) {
@@ -919,6 +923,18 @@ func genWrapName(r rng, seed uint64, id string) *sdl.Program {
 	if r.p(0.5) {
 		// a by-type point that fits the component itself but not its wrapper
 		h.Points = append(h.Points, &sdl.Point{Field: "F2", Kind: sdl.KPtr, Target: x.Name, Sel: sdl.SelType, Optional: r.p(0.6)})
+	}
+	hasF2 := false
+	for _, pt := range h.Points {
+		hasF2 = hasF2 || pt.Field == "F2"
+	}
+	if !hasF2 && r.p(0.5) {
+		// a sibling of the substituted component and a collection of that pointer type: the
+		// sibling fits, the wrapper does not - the collection holds exactly the sibling
+		// (not next to a single-valued point of that type: ranking there would be between a
+		// component whose published version does not fit and one that does, which no statement settles)
+		p.Instances = append(p.Instances, &sdl.Instance{ID: fmt.Sprintf("c%d", len(p.Instances)), Type: x.Name, Alias: "sibling"})
+		h.Points = append(h.Points, &sdl.Point{Field: "F3", Kind: sdl.KPtrs, Target: x.Name, Sel: sdl.SelType, Optional: r.p(0.5)})
 	}
 	at := pick(r, []string{sdl.CbAfter, sdl.CbAfter, sdl.CbBefore, sdl.CbBeforeInst})
 	class := "plain"
